@@ -24,6 +24,7 @@ class Request:
         self.options = dict(options or {})
         self.tags = tuple(tags)
         self.jit_kwargs = dict(jit_kwargs or {})
+        self.twin_of = None
 
     def source(self):
         return PREAMBLE + "\n".join(self.stmts) + "\n"
@@ -506,3 +507,66 @@ def by_tag(tag, exclude=()):
 
 def get(name):
     return POOL[name]
+
+
+# ---- additions after the first round of seeded changes -------------------------------------
+
+# option variants whose effect on the tables is visible (clamping / zero-dropping thresholds)
+for _k, _v in (("table_atol", 5e-2), ("table_rtol", 5e-2), ("epsilon", 1e-1)):
+    _add(POOL["stiff_p2_triangle"].variant(f"@{_k}-big", options={_k: _v}, tags=("family",)))
+    _add(POOL["helmholtz_complex_tri"].variant(f"@{_k}-big", options={_k: _v}, tags=("family",)))
+_add(
+    _lagrange_form(
+        "mass_p2_triangle", "triangle", 2, "ufl.inner(u, v)", tags=("kern", "family")
+    )
+)
+_add(POOL["mass_p2_triangle"].variant("@table_atol-big", options={"table_atol": 5e-2}, tags=("family",)))
+
+
+# expressions of the same shape with different integrands (address reuse after one is dropped)
+def _expr_fn(name, body, tags=("family", "exprfam")):
+    return _add(
+        Request(
+            name,
+            "expressions",
+            [
+                _mesh("triangle"),
+                'el = basix.ufl.element("Lagrange", "triangle", 1)',
+                "V = ufl.FunctionSpace(mesh, el)",
+                "f = ufl.Coefficient(V)",
+                "pts = np.array([[0.25, 0.25], [0.5, 0.125]], dtype=np.float64)",
+                f"objs = [({body}, pts)]",
+            ],
+            tags=tags,
+        )
+    )
+
+
+for _i in (1, 3, 5, 7):
+    _expr_fn(f"expr_sin{_i}", f"ufl.sin({_i} * f)")
+_expr_fn("expr_cos3", "ufl.cos(3 * f)")
+_expr_fn("expr_sin3_plus", "ufl.sin(3 * f) + f")
+
+
+# the same two-mesh expression with the meshes created in either order ("twins": the request is
+# the same, only the creation order - hence the global ufl_id of each mesh - differs)
+def _two_mesh(name, order, twin_of=None):
+    mk = {"A": 'meshA = ufl.Mesh(basix.ufl.element("Lagrange", "triangle", 1, shape=(2,)))',
+          "B": 'meshB = ufl.Mesh(basix.ufl.element("Lagrange", "triangle", 1, shape=(2,)))'}
+    r = Request(
+        name,
+        "expressions",
+        [mk[order[0]], mk[order[1]],
+         'el = basix.ufl.element("Lagrange", "triangle", 2)',
+         "f = ufl.Coefficient(ufl.FunctionSpace(meshA, el))",
+         "g = ufl.Coefficient(ufl.FunctionSpace(meshB, el))",
+         "pts = np.array([[0.25, 0.25], [0.5, 0.1]])",
+         "objs = [(f * g.dx(0) + f**2, pts)]"],
+        tags=("family", "twin", "namesonly"),
+    )
+    r.twin_of = twin_of
+    return _add(r)
+
+
+_two_mesh("expr_two_mesh_ab", "AB")
+_two_mesh("expr_two_mesh_ba", "BA", twin_of="expr_two_mesh_ab")
